@@ -324,6 +324,106 @@ func checkC19(c *Ctx) {
 		}
 	}
 	c.Cov("register_bound_constant_programs", regBound)
+	c19Near(c)
+}
+
+// c19Near: replacements that a lax "is it the same value" test lets through. The new value compares equal to the old one
+// under == / Cmp or prints the same, but is observably another value (1 / K, type(K[0]), K() differ), or the name read at
+// the place of the write is not the binding being written (a function named like the constant).
+// inputs = prelude..., "K = <lit>", obs, attempt, obs, ...: every obs prints what the first one printed.
+const c19Obs = "println(K, "
+
+type c19NearCase struct {
+	prelude  []string
+	lit, obs string
+	attempts []string
+}
+
+func c19NearCases() []c19NearCase {
+	wr := func(nv string) []string {
+		return []string{"K = " + nv, "K := " + nv, "func() {K = " + nv + "}()", "func() {K := " + nv + "; K}(); 0", "for i = 1 {K = " + nv + "}", "if true {K = " + nv + "}", "(() => {K = " + nv + "})()",
+			"func(v) {K = v}(" + nv + ")", "func(K) {K}(" + nv + "); 0", "for K = [" + nv + "] {1}"}
+	}
+	mk := []string{"mk = func(n) {func() {n}}", "mk2 = func(n) {c = n; [func() {c = c + 1; c}]}"}
+	cs := []c19NearCase{
+		{nil, "1", "type(K), K / 2)", wr("1.0")}, {nil, "1.0", "type(K), K / 2)", wr("1")},
+		{nil, "0.0", "1 / K)", wr("-0.0")}, {nil, "-0.0", "1 / K)", wr("0.0")},
+		{nil, "[1]", "type(K[0]), K[0] / 2)", append(wr("[1.0]"), "K[0] = 1.0", "K[0] := 1.0", "func() {K[0] = 1.0}()", "K[0] = K[0] * 1.0", "K[0] /= 1.0")},
+		{nil, "[1.0, 2]", "type(K[0]), type(K[1]))", append(wr("[1, 2]"), "K[0] = 1", "K[1] = 2.0", "func() {K[1] = 2.0}()")},
+		{nil, "[0.0]", "1 / K[0])", append(wr("[-0.0]"), "K[0] = -0.0", "K[0] = -K[0]", "K[0] *= -1")},
+		{nil, `{"a": 1}`, "type(K.a), K.a / 2)", append(wr(`{"a": 1.0}`), "K.a = 1.0", `K["a"] = 1.0`, "func() {K.a = 1.0}()", "K.a = K.a + 0.0")},
+		{nil, "{1: 1}", "type(first(keys(K))))", append(wr("{1.0: 1}"), "K[1.0] = 1", "K[1] = 1.0")},
+		{nil, "[[1]]", "type(K[0][0]))", wr("[[1.0]]")},
+		{nil, `{"a": [1, {"b": 2}]}`, "type(K.a[1].b))", wr(`{"a": [1, {"b": 2.0}]}`)},
+		{nil, "1:12", "type(K[11]))", append(wr("(1:11) + 11.0"), "K[10] = 11.0")},
+		{nil, "[9007199254740993]", "type(K[0]), K[0] % 10)", append(wr("[9007199254740992.0]"), "K[0] = 9007199254740992.0")},
+		{nil, "[9007199254740992.0]", "type(K[0]))", append(wr("[9007199254740993]"), "K[0] = 9007199254740993", "K[0] = 9007199254740992")},
+		{nil, "[-9007199254740993]", "type(K[0]), K[0] % 10)", append(wr("[-9007199254740992.0]"), "K[0] = -9007199254740992.0")},
+		{nil, "{9007199254740993: 1}", "type(first(keys(K))))", append(wr("{9007199254740992.0: 1}"), "K[9007199254740992.0] = 2")},
+		{mk, "mk(1)", "K())", append(wr("mk(2)"), "K = mk(1)")},
+		{mk, "mk2(0)", "K[0]() > 0)", nil},
+		{mk, "[mk(1)]", "K[0]())", append(wr("[mk(2)]"), "K[0] = mk(2)")},
+		{mk, `{"f": mk(1)}`, "K.f())", append(wr(`{"f": mk(2)}`), "K.f = mk(2)")},
+		{nil, "func(x) {x + (1 + 2)}", "K(0.5), K([1]))", wr("func(x) {x + 1 + 2}")},
+		{nil, `"1"`, "type(K))", wr("1")}, {nil, "nil", "type(K))", wr("[]")}, {nil, "[]", "type(K), len(K))", wr("{}")}, {nil, "{}", "type(K))", wr("[]")},
+		{nil, "true", "type(K))", wr("1")}, {nil, "0", "type(K))", wr("false")}, {nil, `""`, "type(K), len(K))", wr("nil")},
+	}
+	// a function named like the constant: inside it the name reads as the function itself
+	for _, body := range []string{"K = self", "K := self", "K = self; K", "func() {K = self}()", "x = self; K = x", "for i = 1 {K = self}", "K = (() => self)()"} {
+		cs = append(cs, c19NearCase{[]string{"g = func K() {" + body + "}", "del(K)"}, "5", "type(K))", []string{"g()", "catch(g()); 0", "g(); g()"}})
+		cs = append(cs, c19NearCase{[]string{"func K() {" + body + "}", "g = K", "del(K)"}, "[1, 2]", "type(K))", []string{"g()", "h = g; h()"}})
+	}
+	return cs
+}
+
+func c19NearInputs(cs c19NearCase, attempt string) []string {
+	in := append([]string{}, cs.prelude...)
+	return append(in, "K = "+cs.lit, c19Obs+cs.obs, attempt, c19Obs+cs.obs)
+}
+
+func c19NearJudge(in []string, on, off []inObs) string {
+	first := -1
+	for i := range in {
+		if !strings.Contains(in[i], c19Obs) {
+			if first >= 0 && (on[i].Err != off[i].Err || on[i].Out != off[i].Out) {
+				return fmt.Sprintf("attempt %q: registers on out=%q err=%v, off out=%q err=%v", in[i], on[i].Out, on[i].Err, off[i].Out, off[i].Err)
+			}
+			continue
+		}
+		if first < 0 {
+			first = i
+			if on[i].Err || on[i].Out == "" {
+				return "" // (the constant could not be bound or observed: not a case)
+			}
+		}
+		if on[i].Out != on[first].Out || off[i].Out != on[first].Out {
+			return fmt.Sprintf("after %q the constant is observed as %q (registers off: %q), was %q", in[i-1], strings.TrimSpace(on[i].Out), strings.TrimSpace(off[i].Out), strings.TrimSpace(on[first].Out))
+		}
+	}
+	return ""
+}
+
+func c19Near(c *Ctx) {
+	n := 0
+	for _, cs := range c19NearCases() {
+		attempts := cs.attempts
+		if len(attempts) == 0 {
+			attempts = []string{"0"}
+		}
+		for _, at := range attempts {
+			in := c19NearInputs(cs, at)
+			on, _ := runHistory(in, RunOpt{})
+			off, _ := runHistory(in, RunOpt{NoReg: true})
+			c.Case("near:"+strings.Join(in, "\n"), true)
+			n++
+			if msg := c19NearJudge(in, on, off); msg != "" {
+				c.Fail("constant-replaced-by-near-equal:"+cs.lit, msg, map[string]any{"check": "near", "inputs": in})
+			} else {
+				c.AddTraces(1)
+			}
+		}
+	}
+	c.Cov("near_equal_replacement_cases", n)
 }
 
 func indexOfKind(name string) int {
@@ -346,6 +446,12 @@ func replayC19(rp map[string]any) (bool, string) {
 			return false, describeDiff(on, off, 1)
 		}
 		return true, "registers on/off agree (the in-run constancy judgement is only made by the check itself)"
+	}
+	if rp["check"] == "near" {
+		if msg := c19NearJudge(in, on, off); msg != "" {
+			return false, msg
+		}
+		return true, ""
 	}
 	if msg := c19Judge(in, on, off); msg != "" {
 		return false, msg
